@@ -178,7 +178,7 @@ def run(ctx, res):
     tabs = c17.setter_tables(F)
     spec = c17.load_table("settings_setters.json")
     import json
-    if "parser_algo" in tabs and tabs["parser_algo"][1] == sorted(spec["parser_algo"], key=lambda r: json.dumps(r, sort_keys=True)):
+    if "parser_algo" in tabs and c17.tables_equal(spec["parser_algo"], tabs["parser_algo"][1]):
         res.ok(rid9, "parser-algo-table", tabs["parser_algo"][0].loc())
     else:
         res.violation(rid9, "parser-algo-table", "Settings::parser_algo side-effect table differs from the documented one",
